@@ -169,34 +169,34 @@ class HasAccessibles(HasProperties):
             cfuncs = tuple(filter(None, (b.__dict__.get(cname) for b in cls.__mro__)))
             wname = 'write_' + pname
             wfunc = getattr(cls, wname, None)
-            if wfunc or not pobj.readonly:
-                # allow write method even when parameter is readonly, but internally writable
+            # always create the write wrapper: the configuration may turn a readonly parameter into
+            # a writable one, and a readonly parameter may still be internally writable
 
-                def new_wfunc(self, value, pname=pname, wfunc=wfunc, check_funcs=cfuncs):
-                    with self.accessLock:
-                        self.log.debug('validate %r to datatype of %r', value, pname)
-                        validate = self.parameters[pname].datatype.validate
-                        try:
-                            new_value = validate(value)
-                            for c in check_funcs:
-                                if c(self, value):
-                                    break
-                            if wfunc:
-                                new_value = wfunc(self, new_value)
-                                self.log.debug('write_%s(%r) returned %r', pname, value, new_value)
-                                if new_value is Done:  # TODO: to be removed when all code using Done is updated
-                                    return getattr(self, pname)
-                                new_value = validate(value if new_value is None else new_value)
-                        except SECoPError as e:
-                            e.raising_methods.append(f'{self.name}.write_{pname}')
-                            raise
-                        self.announceUpdate(pname, new_value, validate=False)
-                        return new_value
+            def new_wfunc(self, value, pname=pname, wfunc=wfunc, check_funcs=cfuncs):
+                with self.accessLock:
+                    self.log.debug('validate %r to datatype of %r', value, pname)
+                    validate = self.parameters[pname].datatype.validate
+                    try:
+                        new_value = validate(value)
+                        for c in check_funcs:
+                            if c(self, value):
+                                break
+                        if wfunc:
+                            new_value = wfunc(self, new_value)
+                            self.log.debug('write_%s(%r) returned %r', pname, value, new_value)
+                            if new_value is Done:  # TODO: to be removed when all code using Done is updated
+                                return getattr(self, pname)
+                            new_value = validate(value if new_value is None else new_value)
+                    except SECoPError as e:
+                        e.raising_methods.append(f'{self.name}.write_{pname}')
+                        raise
+                    self.announceUpdate(pname, new_value, validate=False)
+                    return new_value
 
-                new_wfunc.__name__ = wname
-                new_wfunc.__qualname__ = wrapped_name + '.' + wname
-                new_wfunc.__module__ = cls.__module__
-                cls.wrappedAttributes[wname] = new_wfunc
+            new_wfunc.__name__ = wname
+            new_wfunc.__qualname__ = wrapped_name + '.' + wname
+            new_wfunc.__module__ = cls.__module__
+            cls.wrappedAttributes[wname] = new_wfunc
 
         # check for programming errors
         for attrname, func in cls.__dict__.items():
